@@ -176,3 +176,31 @@ func vh_C15_Cor_YieldFrom() {
 	_ = got
 	vfReach("end")
 }
+
+// a coroutine that completes while SEVERAL YieldFrom requests are queued on it releases every one of those callers
+func vh_C15_Cor_ManyPendingAtCompletion() {
+	callers := vfRange("callers", 2, 4)
+	gate := make(chan struct{})
+	var target *CorDef[int]
+	target = CorNewGenerics[int](func() { <-gate }) // serves nobody
+	cs := make([]*CorDef[int], callers)
+	returned := make([]bool, callers)
+	for i := range cs {
+		i := i
+		cs[i] = CorNewGenerics[int](func() { cs[i].YieldFrom(target, vfInt("request")); returned[i] = true })
+	}
+	target.Start()
+	for _, c := range cs {
+		c.Start()
+	}
+	vfQuiesce() // every request is queued on the target
+	close(gate) // the target returns with all of them pending
+	vfQuiesce()
+	vfAssert("target-done", target.IsDone())
+	all := true
+	for i := range cs {
+		all = all && returned[i] && cs[i].IsDone()
+	}
+	vfAssert("caller-released-when-target-completes", all)
+	vfReach("end")
+}
